@@ -593,6 +593,11 @@ func workerMain(t *testing.T) {
 			stubSet[c] = true
 		}
 		w := sc.Gen(NewRng(seed, sc.Name), tier, seed)
+		if os.Getenv("VSIM_PRINT_WORKLOAD") != "" {
+			wb, _ := json.Marshal(w)
+			fmt.Fprintf(os.Stderr, "WORKLOAD seed=%d scenario=%s %s\n", seed, sc.Name, wb)
+			os.WriteFile("/tmp/vsim-workload.json", wb, 0644)
+		}
 		o, x := execCase(t, sc, w, known, workDir, false)
 		if races := newRaceReports(); len(races) > 0 {
 			sum.Counters["race_reports_in_repo_code"] += len(races)
